@@ -75,6 +75,17 @@ func suiteC14(rng *rand.Rand, tier string, w *Writer) {
 			cmacCase(w, genKey(rng), randBytes(rng, n), spare, byte(rng.Intn(256)))
 		}
 	}
+	// keys at the boundaries of the subkey derivation (RFC 4493 2.3): L = AES(K, 0) or K1 with a first octet of
+	// exactly 0x80, 0x7f, 0xff, 0x00, 0x01 - found by rejection sampling; used only to choose inputs
+	for _, first := range []byte{0x80, 0x7f, 0xff, 0x00, 0x01, 0x81} {
+		for which := 0; which < 2; which++ {
+			key := subkeyBoundaryKey(rng, which, first)
+			for _, n := range []int{0, 1, 16, 17, 40} {
+				cmacCase(w, key, randBytes(rng, n), rng.Intn(20), byte(rng.Intn(256)))
+			}
+			w.Count("cmac.subkey-boundary")
+		}
+	}
 	// the design-round witness: 5 visible bytes of a 32-byte 0xEE array
 	{
 		arr := bytes.Repeat([]byte{0xEE}, 5)
@@ -119,4 +130,36 @@ func suiteC14(rng *rand.Rand, tier string, w *Writer) {
 			w.Count(fmt.Sprintf("cipher.blocks=%d", (n+15)/16))
 		}
 	}
+}
+
+// a key whose L = AES(key, 0^128) (which = 0) or whose K1 = dbl(L) (which = 1) starts with the given octet
+func subkeyBoundaryKey(rng *rand.Rand, which int, first byte) []byte {
+	dbl := func(b []byte) []byte {
+		o := make([]byte, 16)
+		for i := 0; i < 16; i++ {
+			o[i] = b[i] << 1
+			if i < 15 {
+				o[i] |= b[i+1] >> 7
+			}
+		}
+		if b[0]&0x80 != 0 {
+			o[15] ^= 0x87
+		}
+		return o
+	}
+	key := make([]byte, 16)
+	for try := 0; try < 200000; try++ {
+		rng.Read(key)
+		c, _ := aes.NewCipher(key)
+		l := make([]byte, 16)
+		c.Encrypt(l, make([]byte, 16))
+		v := l
+		if which == 1 {
+			v = dbl(l)
+		}
+		if v[0] == first {
+			return key
+		}
+	}
+	return key
 }
